@@ -178,7 +178,7 @@ theorem findPair_remote {a : Agent} {l r : Cand} {p : Pair} (hpw : a.remotes.Pai
       simp only [Bool.and_eq_true] at h
       have he := h.2
       simp only [Cand.equal, Cand.taEqual, Bool.and_eq_true, beq_iff_eq] at he
-      have := pairwise_inj_mem (f := Cand.addr) hpw (findCand_some h2).1 hr he.1.1.2
+      have := pairwise_inj_mem (f := Cand.addr) hpw (findCand_some h2).1 hr he.1.1.1.2
       rw [this]
 
 theorem findRemote_seenRemoteRecv (b : Agent) (u now net addr : Nat) :
